@@ -29,6 +29,18 @@ OPS = [("sort", 1), ("sort", -1), ("rank", "min"), ("rank", "max"), ("rank", "or
 def gen_cases(ctx):
     rng = ctx.rng
     cases = []
+    # vectors that are ALREADY in raw ascending order, with their missing elements wherever the raw order puts them (the
+    # missing string "" sorts before every string, NaT is the smallest integer underneath): missing last, in both directions
+    for kind in ("str", "strlong", "ustr", "float", "date", "timedelta", "int", "objstr"):
+        nonna = [v for v in vecgen.POOLS[kind] if not vecgen.is_na_val(kind, v)]
+        nas = [v for v in vecgen.POOLS[kind] if vecgen.is_na_val(kind, v)][:1]
+        try:
+            asc = sorted(nonna, key=lambda v: vecgen.sort_key(kind, vecgen.canon_vals(kind, [v])[0]) if kind != "objstr" else str(v))[:5]
+        except TypeError:
+            continue
+        for vals in ([*nas, *asc], [*nas, *nas, *asc], [*asc, *nas], asc):
+            for op, arg in (("sort", 1), ("sort", -1), ("rank", "ordinal"), ("unique", None)):
+                cases.append({"kind": kind, "vals": list(vals), "op": op, "arg": arg})
     corpus = [
         {"kind": "float", "vals": [1.0, 1.0, "nan"], "op": "rank", "arg": "min"},
         {"kind": "float", "vals": ["nan", "nan"], "op": "rank", "arg": "min"},
